@@ -191,9 +191,9 @@ TextRemapSeq(bytes) ==
 TextRemapSize(bytes) == Cardinality({bytes[i] : i \in 1..Len(bytes)})
 
 ---------------------------------------------------------------------------
-(* Bit structures whose positions do not fit TLC's integers: `base` zeros  *)
-(* (a number given as <<0, limbs base 2^24, most significant first>>)      *)
-(* followed by a short tail T.  Arguments and results are base + small     *)
+(* Bit structures whose positions do not fit TLC's integers: a leading run *)
+(* of `base` equal bits (base given as <<0, limbs base 2^24, most          *)
+(* significant first>>) followed by a short tail T.  Arguments and results are base + small     *)
 (* offset, so the clauses are those of T shifted by base; the arithmetic   *)
 (* on the limb lists is done here.                                         *)
 
@@ -209,28 +209,32 @@ BigAdd(base, delta) == BigAddAt(base, Len(base), delta)
 BigOk(base) == Len(base) >= 3 /\ base[1] = 0 /\ base[2] >= 128    \* at least 2^31, well formed
 SmallNum(v) == IF v = 0 THEN <<0>> ELSE IF v < LIMB THEN <<0, v>> ELSE <<0, v \div LIMB, v % LIMB>>
 
-\* rel = offset of the argument from base (may be negative: inside the leading zeros)
-BigGet(T, rel) ==
-    IF rel < 0 THEN Cl("get.in_zeros", {<<0>>})
+\* The leading run consists of `fill` bits (0 or 1).  rel = offset of a position argument from
+\* base (negative: inside the leading run).  Pb = positions of the bit b in the tail T.
+BigGet(fill, T, rel) ==
+    IF rel < 0 THEN Cl("get.in_lead", {SmallNum(fill)})
     ELSE IF rel < Len(T) THEN Cl("get.in", {SmallNum(T[rel + 1])})
     ELSE Cl("get.out", {<<NONE>>})
-BigRank1(T, P1, rel) ==
-    IF rel > Len(T) THEN Cl("rank1.pos_out", {<<NONE>>})
-    ELSE Cl("rank1.gen", {SmallNum(IF rel <= 0 THEN 0 ELSE RankP(P1, rel))})
-BigRank0(base, T, P1, rel) ==
-    IF rel > Len(T) THEN Cl("rank0.pos_out", {<<NONE>>})
-    ELSE Cl("rank0.gen", {BigAdd(base, rel - (IF rel <= 0 THEN 0 ELSE RankP(P1, rel)))})
-\* k is an absolute (small) occurrence index
-BigSelect1(base, P1, k) ==
-    IF k >= Len(P1) THEN Cl("select1.missing", {<<NONE>>})
-    ELSE Cl("select1.gen", {BigAdd(base, SelectP(P1, k))})
-\* the k-th zero for a small absolute k lies in the leading zeros
-BigSelect0Abs(k) == Cl("select0.in_zeros", {SmallNum(k)})
-\* the (base + j)-th zero: in the leading zeros for j < 0, else the j-th zero of T
-BigSelect0Rel(base, P0, j) ==
-    IF j < 0 THEN Cl("select0.in_zeros", {BigAdd(base, j)})
-    ELSE IF j >= Len(P0) THEN Cl("select0.missing", {<<NONE>>})
-    ELSE Cl("select0.gen", {BigAdd(base, SelectP(P0, j))})
+\* number of bits b before position base + rel
+BigRank(b, fill, base, T, Pb, rel) ==
+    LET which == IF b = 1 THEN "rank1" ELSE "rank0"
+        inT == IF rel <= 0 THEN 0 ELSE RankP(Pb, rel)
+    IN  IF rel > Len(T) THEN Cl(which \o ".pos_out", {<<NONE>>})
+        ELSE IF b = fill THEN Cl(which \o ".gen_lead", {BigAdd(base, IF rel <= 0 THEN rel ELSE inT)})
+        ELSE Cl(which \o ".gen", {SmallNum(inT)})
+\* the k-th bit b for a small absolute k
+BigSelectAbs(b, fill, base, Pb, k) ==
+    LET which == IF b = 1 THEN "select1" ELSE "select0"
+    IN  IF b = fill THEN Cl(which \o ".in_lead", {SmallNum(k)})
+        ELSE IF k >= Len(Pb) THEN Cl(which \o ".missing", {<<NONE>>})
+        ELSE Cl(which \o ".gen", {BigAdd(base, SelectP(Pb, k))})
+\* the (base + j)-th bit b
+BigSelectRel(b, fill, base, Pb, j) ==
+    LET which == IF b = 1 THEN "select1" ELSE "select0"
+    IN  IF b # fill THEN Cl(which \o ".missing", {<<NONE>>})       \* there are fewer than 2^31 such bits
+        ELSE IF j < 0 THEN Cl(which \o ".in_lead", {BigAdd(base, j)})
+        ELSE IF j >= Len(Pb) THEN Cl(which \o ".missing", {<<NONE>>})
+        ELSE Cl(which \o ".gen_lead", {BigAdd(base, SelectP(Pb, j))})
 
 ---------------------------------------------------------------------------
 (* Kinds of values and the conversions between them (the type-state graph  *)
